@@ -1241,46 +1241,3 @@ Proof.
 Qed.
 
 (* ================= assumptions ================= *)
-Print Assumptions compared_var_spec.
-Print Assumptions compared_var_none.
-Print Assumptions var_or_autovar_command.
-Print Assumptions var_or_autovar_unconfigured.
-Print Assumptions autovar_leaf_equation.
-Print Assumptions unconfigured_command_leaf_rejected.
-Print Assumptions leaf_parse_cases.
-Print Assumptions autovar_leaf_parse.
-Print Assumptions leaf_preamble_origin.
-Print Assumptions autovar_leaf_position_out_of_range.
-Print Assumptions var_leaf_comparison.
-Print Assumptions autovar_leaf_default_comparison.
-Print Assumptions autovar_leaf_written_comparison.
-Print Assumptions autovar_leaf_preamble_is_the_statement.
-Print Assumptions autovar_switch_equation.
-Print Assumptions unconfigured_command_switch_rejected.
-Print Assumptions autovar_switch_position_out_of_range.
-Print Assumptions autovar_switch_parse.
-Print Assumptions autovar_switch_preamble_is_the_statement.
-Print Assumptions autovar_switch_statement.
-Print Assumptions command_stmt_mono.
-Print Assumptions every_preamble_in_a_condition.
-Print Assumptions command_stmt_head.
-Print Assumptions every_preamble_in_an_if_or_while_condition.
-Print Assumptions every_preamble_in_a_do_while_condition.
-Print Assumptions autovar_leaf_head.
-Print Assumptions autovar_leaf_head_not.
-Print Assumptions autovar_leaf_head_bare.
-Print Assumptions cond_var_operator_values.
-Print Assumptions parser_builds_tree_at.
-Print Assumptions autovar_leaf_plain.
-Print Assumptions autovar_leaf_negated.
-Print Assumptions autovar_leaf_compared.
-Print Assumptions autovar_leaf_bare_name.
-Print Assumptions autovar_switch_with_arguments.
-Print Assumptions autovar_leaf_meaning.
-Print Assumptions condition_with_autovar_leaves_parses_to_its_meaning.
-Print Assumptions preamble_rendered_as_statement.
-Print Assumptions premises_hold.
-Print Assumptions model_run.
-Print Assumptions compiled_condition.
-Print Assumptions compiled_switch.
-Print Assumptions rejected_forms.
